@@ -5,6 +5,7 @@ use std::time::{Duration, Instant};
 
 mod corpus;
 mod iter;
+mod search;
 mod state_ops;
 
 pub struct Budget {
@@ -29,6 +30,7 @@ fn family(name: &str) -> Option<Box<dyn Family>> {
     match name {
         "state_ops" => Some(Box::new(state_ops::StateOps)),
         "iter" => Some(Box::new(iter::Iter)),
+        "search" => Some(Box::new(search::Search)),
         _ => None,
     }
 }
